@@ -115,7 +115,10 @@ enum Origin {
 
 fn not_normal_signature(text: &str, origin: Origin) -> &'static str {
   match origin {
-    Origin::Document => "iota-did-via-document-not-normalised",
+    // The document routes validate without normalising (listed finding): what they hand out may be another spelling
+    // of an IOTA DID (upper-case hex, explicit default network), but it has to be an IOTA DID.
+    Origin::Document if lenient_reading(text).is_some() => "iota-did-via-document-not-normalised",
+    Origin::Document => "iota-did-via-document-not-an-iota-did",
     Origin::CoreDocument => "iota-did-via-from-coredocument-unchecked",
     Origin::Direct => {
       if has_blank_edge(text) {
@@ -355,6 +358,17 @@ fn check_new(tag: &str, network: &str, route: NameRoute, obs: &mut Obs) -> Check
     };
     let want = syn::IotaParts { tag, ..want.clone() };
     let Some(parts) = battery(&did, via, Origin::Direct, obs)? else { continue };
+    // the placeholder is the DID with the all-zero tag, on whichever network
+    match catch(|| did.is_placeholder()) {
+      Ok(p) => vensure!(
+        obs,
+        p == (tag == [0u8; 32]),
+        "iota-did-is-placeholder-wrong",
+        "{via}(tag {}, network {network:?}).is_placeholder() = {p}",
+        syn::encode_tag(&tag)
+      ),
+      Err(p) => vfail!(obs, "iota-did-new-panics", "is_placeholder on {:?} panicked: {}", did.as_str(), p.msg),
+    }
     vensure!(
       obs,
       parts == want && did.as_str() == want.normal_form(),
@@ -546,7 +560,7 @@ fn check_document(id: &str, controller: Option<&str>, route: DocRoute, obs: &mut
 // ---------------------------------------------------------------------------------------------
 
 const INTO_STRING_SIG: &str = "iota-did-into-string-does-not-return";
-const INTO_STRING_LIMIT_MS: u64 = 5_000;
+const INTO_STRING_LIMIT_MS: u64 = 60_000;
 
 fn check_into_string(s: &str, in_process: bool, obs: &mut Obs) -> CheckResult {
   let did = match attempt(|| IotaDID::parse(s)) {
@@ -688,7 +702,10 @@ fn tag_grid() -> impl Iterator<Item = Case> {
 
 fn new_grid() -> impl Iterator<Item = Case> {
   let names = gen::words(&NET_ALPHABET, 3).chain(
-    ["iota", "main", "smr", "rms", "abc123", "1234567", "toolongname", "UPPER", "Iota", "a b", "atoi "]
+    [
+      "iota", "main", "smr", "rms", "abc123", "1234567", "toolongname", "UPPER", "Iota", "a b", "atoi ", "iot", "iota1", "iotaa",
+      "aiota", "iotai", "ota", "i", "iotaio",
+    ]
       .into_iter()
       .map(str::to_string),
   );
@@ -729,7 +746,7 @@ fn hex64() -> impl Strategy<Value = String> {
 fn valid_network() -> impl Strategy<Value = String> {
   prop_oneof![
     3 => "[a-z0-9]{1,6}",
-    2 => prop::sample::select(vec!["smr", "rms", "main", "dev", "a", "0", "atoi", "iota"]).prop_map(str::to_string),
+    2 => prop::sample::select(vec!["smr", "rms", "main", "dev", "a", "0", "atoi", "iota", "iot", "iota1", "iotaa", "aiota", "iotaio"]).prop_map(str::to_string),
   ]
 }
 
